@@ -133,7 +133,55 @@ def loop_sequences(fv: FV, head: int) -> List[ast.AST]:
         if inner is not None and inner[0] == "zip":
             return list(inner[1])
         return [parts[1][0]]
+    if isinstance(it, ast.Call) and getattr(it.func, "id", None) == "range" and len(it.args) == 1 and isinstance(n.ast.target, ast.Name):
+        # index loop: the sequences are those subscripted with the loop variable in the body
+        var = n.ast.target.id
+        seqs: List[ast.AST] = []
+        seen = set()
+        for i in sorted(fv.cfg.loop_body.get(head, ())):
+            m = fv.cfg.nodes[i]
+            if m.ast is None:
+                continue
+            from ..engine import own_walk
+
+            for sub in own_walk(m.ast):
+                if isinstance(sub, ast.Subscript) and isinstance(sub.slice, ast.Name) and sub.slice.id == var and isinstance(sub.ctx, ast.Load):
+                    base = fv.res.resolve(sub.value, i)
+                    if key(base) not in seen:
+                        seen.add(key(base))
+                        seqs.append(base)
+        if seqs:
+            return seqs
     return [it]
+
+
+def loop_sequence_exprs(fv: FV, head: int) -> List[Tuple[int, ast.AST]]:
+    """(node, raw expression) of the sequences a loop pairs element-wise: zip arguments, or the sequences that an index loop
+    subscripts with its loop variable."""
+    n = fv.cfg.nodes[head]
+    it = n.ast.iter
+    while isinstance(it, ast.Call) and getattr(it.func, "id", None) == "enumerate" and it.args:
+        it = it.args[0]
+    if isinstance(it, ast.Call) and getattr(it.func, "id", None) == "zip":
+        return [(head, a) for a in it.args]
+    if isinstance(it, ast.Call) and getattr(it.func, "id", None) == "range" and len(it.args) == 1 and isinstance(n.ast.target, ast.Name):
+        from ..engine import own_walk
+
+        var = n.ast.target.id
+        out: List[Tuple[int, ast.AST]] = []
+        seen = set()
+        for i in sorted(fv.cfg.loop_body.get(head, ())):
+            m = fv.cfg.nodes[i]
+            if m.ast is None:
+                continue
+            for sub in own_walk(m.ast):
+                if isinstance(sub, ast.Subscript) and isinstance(sub.slice, ast.Name) and sub.slice.id == var and isinstance(sub.ctx, ast.Load):
+                    k = key(fv.res.resolve(sub.value, i))
+                    if k not in seen:
+                        seen.add(k)
+                        out.append((i, sub.value))
+        return out
+    return []
 
 
 def limit_guard(ctx, fv: FV, st: Store, kind: str):
